@@ -45,6 +45,40 @@ def _refuses_unknown_hash(fi, name_param):
     return bool(refusals(F, pred))
 
 
+def _without_branch(fi, pred):
+    """Copy of the function in which the top-level `if <fact pred>: ...return` has been taken out (what runs when the fact
+    does not hold), or None when the body does not have that form."""
+    from ..facts import atom_facts
+    from ..model import clone
+    body = list(fi.node.body)
+    for i, st in enumerate(body):
+        if not isinstance(st, ast.If):
+            continue
+        e, pol = st.test, True
+        while isinstance(e, ast.UnaryOp) and isinstance(e.op, ast.Not):
+            e, pol = e.operand, not pol
+        try:
+            facts = atom_facts(fi, e, True, ())
+        except Exception:
+            facts = []
+        hit = [t for (k, t) in facts if pred(k, True) or pred(k, False)]
+        if len(facts) != 1 or not hit:
+            continue
+        holds_in_body = (hit[0] is True) == pol
+        taken, other = (st.body, st.orelse) if holds_in_body else (st.orelse, st.body)
+        if not taken or not isinstance(taken[-1], (ast.Return, ast.Raise)):
+            return None
+        new = clone(fi.node)
+        new.body = [clone(x) for x in body[:i]] + [clone(x) for x in other] + [clone(x) for x in body[i + 1:]]
+        if not new.body:
+            return None
+        ast.fix_missing_locations(new)
+        from ..model import set_parents
+        set_parents(new)
+        return new
+    return None
+
+
 def _bound_args(t, fn, params):
     """{parameter: term} of a call term to `fn`, or None."""
     if t is None or t[0] != "call" or t[1] != fn:
@@ -210,14 +244,27 @@ def check(repo):
                "AbstractPRF.__init__ no longer stores the declared lengths")
 
     # ---------------------------------------------------------------- hash wrapper
-    ce = repo.func(HASH, "HashlibHashVariableOutputLengthWrapper._ctr_expand")
+    hc = repo.func(HASH, "HashlibHashVariableOutputLengthWrapper.__call__")
+    is_xof = member("self.hash_func_name", {"shake_128", "shake_256"})
+    ce = hc.cls.methods.get("_ctr_expand") if hc.cls is not None else None
+    inlined = ce is None
+    ce_node = ce.node if ce is not None else None
+    if inlined:
+        # no separate helper: the counter expansion is expected in __call__ itself, as what remains of its body once the
+        # shake_* branch (which must return on its own) is taken out
+        ce = hc
+        ce_node = _without_branch(hc, is_xof)
     cmsg = ("var", ce.params[1])
     olen = ("attr", ("var", "self"), "output_length")
-    try:
-        sm2 = shape.summary(shape.bytes_accumulators(ce.node))
-    except shape.NoShape as e:
-        sm2 = None
-        r4.fail_fn(ce, ce.node, "expansion loop", "_ctr_expand is no longer <prefix>; <one expansion loop>; return (%s)" % e)
+    sm2 = None
+    if ce_node is None:
+        r4.fail_fn(hc, hc.node, "expansion loop", "the counter-mode expansion (result += hash(message || I2B(c)), c = 1, 2, ...) is found neither in _ctr_expand nor "
+                   "in the part of __call__ that handles the hashes without native variable-length output")
+    else:
+        try:
+            sm2 = shape.summary(shape.bytes_accumulators(ce_node))
+        except shape.NoShape as e:
+            r4.fail_fn(ce, ce.node, "expansion loop", "%s is no longer <prefix>; <one expansion loop>; return (%s)" % ("_ctr_expand" if not inlined else "the counter branch of __call__", e))
     if sm2 is not None:
         RES = S.mv("RES")
         ctr = shape.counter_of(sm2)
@@ -240,12 +287,10 @@ def check(repo):
             oku = cc == (("Lt", ln, olen), True)
             r2.require(oku, ce, "expands until long enough", "_ctr_expand keeps expanding while %s; expected while len(result) < output_length" % (cc,), sm2.loop)
             r2.require(sm2.ret == ("slice", ("var", asg2["RES"]), None, olen), ce, "truncated to output_length", "_ctr_expand returns %s" % (S.show(sm2.ret) if sm2.ret else None))
-    hc = repo.func(HASH, "HashlibHashVariableOutputLengthWrapper.__call__")
     hmsg = ("var", hc.params[1])
     xof = ("call", ("method", ("call", ("fn", "self.hash_func"), (hmsg,), ()), "digest"), (olen,), ())
     ctr = ("call", ("fn", "self._ctr_expand"), (hmsg,), ())
     okx, seen_x, seen_c = True, False, False
-    is_xof = member("self.hash_func_name", {"shake_128", "shake_256"})
     for ps in summarize(hc):
         if ps.exc is not None:
             continue
@@ -254,7 +299,8 @@ def check(repo):
             okx = okx and ps.ret == xof
         elif ps.has(lambda k, t: is_xof(k, True) and not t):
             seen_c = True
-            okx = okx and ps.ret == ctr
+            # (with the expansion written out in __call__ itself, its loop was examined above as the rest of the body)
+            okx = okx and (ps.ret == ctr if not inlined else sm2 is not None)
         else:
             okx = False
     r4.require(okx and seen_x and seen_c, hc, "XOF branch / counter branch", "hash wrapper __call__ no longer uses native XOF output for shake_* and counter expansion otherwise")
